@@ -16,4 +16,35 @@ pub fn dump(which: &[String]) {
     if all || dumps_parse::SECTIONS.iter().any(|s| want(s)) {
         dumps_parse::dump(&want);
     }
+    if want("format_flags") {
+        format_flags();
+    }
+}
+
+/// Every flag constant, mask and shift of `lexical_util::format` (format_flags.rs) as `NAME 0x…`.
+/// The values are read from the compiled crate, never restated here.
+fn format_flags() {
+    use lexical_util::format as f;
+    println!("section format_flags");
+    macro_rules! p {
+        ($($name:ident)*) => { $( println!("{} 0x{:x}", stringify!($name), f::$name as u128); )* };
+    }
+    p! {
+        REQUIRED_INTEGER_DIGITS REQUIRED_FRACTION_DIGITS REQUIRED_EXPONENT_DIGITS REQUIRED_MANTISSA_DIGITS
+        REQUIRED_DIGITS NO_POSITIVE_MANTISSA_SIGN REQUIRED_MANTISSA_SIGN NO_EXPONENT_NOTATION
+        NO_POSITIVE_EXPONENT_SIGN REQUIRED_EXPONENT_SIGN NO_EXPONENT_WITHOUT_FRACTION NO_SPECIAL
+        CASE_SENSITIVE_SPECIAL NO_INTEGER_LEADING_ZEROS NO_FLOAT_LEADING_ZEROS REQUIRED_EXPONENT_NOTATION
+        CASE_SENSITIVE_EXPONENT CASE_SENSITIVE_BASE_PREFIX CASE_SENSITIVE_BASE_SUFFIX
+        INTEGER_INTERNAL_DIGIT_SEPARATOR FRACTION_INTERNAL_DIGIT_SEPARATOR EXPONENT_INTERNAL_DIGIT_SEPARATOR
+        INTEGER_LEADING_DIGIT_SEPARATOR FRACTION_LEADING_DIGIT_SEPARATOR EXPONENT_LEADING_DIGIT_SEPARATOR
+        INTEGER_TRAILING_DIGIT_SEPARATOR FRACTION_TRAILING_DIGIT_SEPARATOR EXPONENT_TRAILING_DIGIT_SEPARATOR
+        INTEGER_CONSECUTIVE_DIGIT_SEPARATOR FRACTION_CONSECUTIVE_DIGIT_SEPARATOR EXPONENT_CONSECUTIVE_DIGIT_SEPARATOR
+        INTERNAL_DIGIT_SEPARATOR LEADING_DIGIT_SEPARATOR TRAILING_DIGIT_SEPARATOR CONSECUTIVE_DIGIT_SEPARATOR
+        SPECIAL_DIGIT_SEPARATOR
+        DIGIT_SEPARATOR_SHIFT DIGIT_SEPARATOR BASE_PREFIX_SHIFT BASE_PREFIX BASE_SUFFIX_SHIFT BASE_SUFFIX
+        MANTISSA_RADIX_SHIFT MANTISSA_RADIX RADIX_SHIFT RADIX EXPONENT_BASE_SHIFT EXPONENT_BASE
+        EXPONENT_RADIX_SHIFT EXPONENT_RADIX RADIX_MASK
+        FLAG_MASK INTERFACE_FLAG_MASK DIGIT_SEPARATOR_FLAG_MASK EXPONENT_FLAG_MASK
+        INTEGER_DIGIT_SEPARATOR_FLAG_MASK FRACTION_DIGIT_SEPARATOR_FLAG_MASK EXPONENT_DIGIT_SEPARATOR_FLAG_MASK
+    }
 }
